@@ -1481,6 +1481,188 @@ class DeepSite(Site):
 
 
 # ---------------------------------------------------------------------------
+# serialization at any depth (UnionDeepEnc.v)
+# ---------------------------------------------------------------------------
+def ident_packer(tp) -> bool:
+    """the packer expression of tp is "value" """
+    k, a = deep_kind(tp)
+    if k == "scalar":
+        return True
+    if k == "opt":
+        return ident_packer(a)
+    if k == "union":
+        return all(ident_packer(m) for m in a)
+    return False
+
+
+def structural(tp) -> bool:
+    """a container emitted as comprehension / indexing because an item packer is not the identity"""
+    k, a = deep_kind(tp)
+    if k in ("list", "tupv", "dict"):
+        return not ident_packer(a) and has_union(a)
+    if k == "tupf":
+        return any(has_union(x) for x in a) and any(not ident_packer(x) for x in a)
+    return False
+
+
+def gen_deep_value(rng, tp) -> str:
+    k, a = deep_kind(tp)
+    if k == "scalar":
+        return "None" if a is NoneType else rng.choice(ENCODE_VALUES[a.__name__])
+    if k == "leaf":
+        return rng.choice(ENCODE_VALUES[tp.__name__])
+    if k == "opt":
+        return "None" if rng.random() < 0.3 else gen_deep_value(rng, a)
+    if k == "union":
+        return gen_deep_value(rng, rng.choice(a))
+    if k == "list":
+        return "[" + ", ".join(gen_deep_value(rng, a) for _ in range(rng.choice([0, 1, 2, 3]))) + "]"
+    if k == "tupv":
+        return "(" + "".join(gen_deep_value(rng, a) + ", " for _ in range(rng.choice([0, 1, 2]))) + ")"
+    if k == "tupf":
+        return "(" + "".join(gen_deep_value(rng, x) + ", " for x in a) + ")"
+    return "{" + ", ".join(f"{key!r}: {gen_deep_value(rng, a)}" for key in rng.sample(["k", "p", "q"], rng.choice([0, 1, 2]))) + "}"
+
+
+def ref_enc_deep(tp, v, mem: Members):
+    """REFERENCE: the member a value belongs to (first conforming, declaration order) packs it"""
+    k, a = deep_kind(tp)
+    if k in ("scalar", "leaf") or not (k in ("union", "opt") or structural(tp)):
+        r = mem.encode(NoneType if tp is None else tp, v, False)
+        if r[0] != "ok":
+            raise ValueError(v)
+        return r[1]
+    if k == "opt":
+        return None if v is None else ref_enc_deep(a, v, mem)
+    if k == "union":
+        m = next((m for m in a if conforms(m, v)), None)
+        if m is None:
+            raise ValueError(v)
+        return None if m is NoneType else ref_enc_deep(m, v, mem)
+    if k in ("list", "tupv"):
+        return [ref_enc_deep(a, x, mem) for x in v]
+    if k == "tupf":
+        return [ref_enc_deep(t, v[i], mem) for i, t in enumerate(a)]
+    return {key: ref_enc_deep(a, x, mem) for key, x in v.items()}
+
+
+def visit_unions_enc(tp, v):
+    k, a = deep_kind(tp)
+    if k == "opt":
+        if v is not None:
+            yield from visit_unions_enc(a, v)
+    elif k == "union":
+        yield (tp, a, v)
+        m = next((m for m in a if conforms(m, v)), None)
+        if m is not None and m not in SCALARS:
+            yield from visit_unions_enc(m, v)
+    elif k in ("list", "tupv") and isinstance(v, (list, tuple)):
+        for x in v:
+            yield from visit_unions_enc(a, x)
+    elif k == "tupf" and isinstance(v, tuple) and len(v) == len(a):
+        for t, x in zip(a, v):
+            yield from visit_unions_enc(t, x)
+    elif k == "dict" and isinstance(v, dict):
+        for x in v.values():
+            yield from visit_unions_enc(a, x)
+
+
+def coq_pty(tp, subs, mem: Members) -> str:
+    k, a = deep_kind(tp)
+    if k == "opt":
+        return f"(QOpt {coq_pty(a, subs, mem)})"
+    if k == "union":
+        return "(QU [" + "; ".join(f"({i + 1}%nat, {coq_pty(m, subs, mem)})" for i, m in enumerate(a)) + "])"
+    if structural(tp):
+        if k == "list":
+            return f"(QList {coq_pty(a, subs, mem)})"
+        if k == "tupv":
+            return f"(QTupV {coq_pty(a, subs, mem)})"
+        if k == "tupf":
+            return "(QTupF [" + "; ".join(coq_pty(t, subs, mem) for t in a) + "])"
+        return f"(QDict {coq_pty(a, subs, mem)})"
+    t2 = NoneType if tp is None else tp
+    cname = "NoneType" if t2 is NoneType else getattr(typing.get_origin(t2) or t2, "__name__", "x")
+    rows = "; ".join(f"({to_uv(x)}, {to_ouv(mem.encode(t2, x, False))})" for x in subs)
+    return f"(QLeaf {coq_str(cname)} {'true' if t2 in SCALARS else 'false'} (tb [{rows}]))"
+
+
+def deep_enc_part(ctx: vlib.Ctx, mod, mem: Members):
+    rng = ctx.rng
+    qcases, qinfo = [], []
+    curated = ["List[Union[int, date]]", "Dict[str, Optional[Union[int, date]]]", "Tuple[Union[date, str], ...]",
+               "Union[List[Union[int, date]], str]", "Dict[str, Union[List[int], List[date]]]", "List[Union[Decimal, int]]",
+               "Tuple[Optional[date], Union[str, UUID, None]]", "Union[Dict[str, Union[date, int]], List[Optional[date]], str]",
+               "List[Optional[Union[DC1, List[int]]]]", "Optional[List[Union[Weird, str]]]", "List[Union[UUID, datetime]]",
+               "Dict[str, Tuple[Union[Num, int], Union[int, Num]]]"]
+    specs = list(curated)
+    for _ in range(ctx.budget(150, 1200)):
+        for _try in range(8):
+            e = gen_deep_type(rng, rng.choice([2, 2, 3]))
+            for _f in getattr(typing, "_cleanups", []):
+                _f()
+            try:
+                if has_union(eval(e, mod.__dict__)) and len(e) < 160:
+                    specs.append(e)
+                    break
+            except Exception:
+                continue
+    for ti, expr in enumerate(specs):
+        try:
+            site = Site(mod, expr, "codec") if deep_kind(eval(expr, mod.__dict__))[0] in ("union", "opt") else DeepSite(mod, expr, "codec")
+        except Exception as e:
+            ctx.notes.append(f"deep schema not built: {expr}: {type(e).__name__}: {e}"[:200])
+            continue
+        tp = site.tp
+        for _ in range(ctx.budget(4, 6)):
+            vx = gen_deep_value(rng, tp)
+            try:
+                v = eval(vx, mod.__dict__)
+            except Exception:
+                continue
+            if not conforms(tp, v):
+                continue
+            expected = outcome(ref_enc_deep, tp, v, mem)
+            if expected[0] != "ok":
+                continue
+            observed = outcome(site.encode, v)
+            if same(observed, expected):
+                cls = "agree"
+            else:
+                node_cls = []
+                for utp, members, vv in visit_unions_enc(tp, v):
+                    j = next((k for k, mm in enumerate(members) if conforms(mm, vv)), None)
+                    if j is None:
+                        node_cls.append("other")
+                        continue
+                    menc = lambda m, x: mem.encode(m, x, False)
+                    exp_n = ("ok", None) if members[j] is NoneType else menc(members[j], vv)
+                    node_cls.append(classify_encode(site, members, j, vv, mem.encode(utp, vv, False), exp_n, menc))
+                bad = [c for c in node_cls if c != "agree"]
+                cls = bad[0] if bad and all(c == "union-encode-untyped-try" for c in bad) else "other"
+            ctx.count(("deep-enc", expr, cls, observed[0]))
+            ctx.hist("deep_encode_outcome", cls + "/" + observed[0])
+            if cls != "agree":
+                ctx.fail(f"encode {expr} via codec <- {vx}: got {show(observed)}, property says {show(expected)}",
+                         dict(site.replay_base(), op="encode", input=vx, observed=show(observed), expected=show(expected)),
+                         {"kind": cls, "op": "encode"} if cls != "other" else {"kind": cls, "op": "encode", "deep": True})
+            subs = subvalues(v)
+            if not ascii_only_str(subs):
+                continue
+            qcases.append(f"QCA {coq_pty(tp, subs, mem)} {to_uv(v)} {to_ouv(observed)} {to_ouv(expected)}")
+            qinfo.append((expr, vx, show(observed), show(expected), cls))
+    corr(ctx, "deep-encode-model-vs-impl", qcases, qinfo, "qcase", ["qcase_ok", "qcase_ok_model", "qcase_ok_ref", "qcase_thm"],
+         stale_fun="qcase_stale", imports="UnionModel UnionDeep UnionDeepEnc", shard=150, needs=("theories/UnionDeepEnc.vo",))
+
+
+def ascii_only_str(subs) -> bool:
+    """values the structural model can represent: ASCII text, and no instance of a str/list/tuple/dict SUBCLASS
+    (a str-mixin enum member is iterable like a str, which the (class, repr) encoding of objects does not show)"""
+    return (all((type(x) is not str) or x.isascii() for x in subs)
+            and all(type(x) in (str, list, tuple, dict) or not isinstance(x, (str, list, tuple, dict)) for x in subs))
+
+
+# ---------------------------------------------------------------------------
 # K19: the translated emission loop vs the method text the real generator produces
 # ---------------------------------------------------------------------------
 FB_TEXT = {"int(value)": "KInt", "float(value)": "KFloat", "bool(value)": "KBool", "str(value)": "KStr", "None": "KNone"}
@@ -1661,7 +1843,7 @@ def k21_part(ctx: vlib.Ctx, mod):
 THEOREMS = [
     "C11_union_decode_partial", "C11_union_deviation_char", "C11_union_shadow_result", "C11_union_none_refuted",
     "C11_union_shadow_refuted", "C11_no_cross_coercion", "C11_scalars_first_no_shadow", "C11_union_result_from_member",
-    "C11_union_raises_iff", "C11_none_member_never_raises", "C11_deterministic", "C11_union_dedup_invisible", "C11_nested_union_partial", "C11_shape_positions", "C11_typevar_constraints_win", "C11_typevar_partial", "C11_deep_decode_partial", "C11_deep_decode_refuted", "C11_union_emit_correct", "C11_union_emitted_partial", "C11_pack_emit_correct", "C11_pack_emitted_partial", "C11_opt",
+    "C11_union_raises_iff", "C11_none_member_never_raises", "C11_deterministic", "C11_union_dedup_invisible", "C11_nested_union_partial", "C11_shape_positions", "C11_typevar_constraints_win", "C11_typevar_partial", "C11_deep_decode_partial", "C11_deep_decode_refuted", "C11_union_emit_correct", "C11_union_emitted_partial", "C11_pack_emit_correct", "C11_pack_emitted_partial", "C11_union_encode_ref", "C11_deep_encode_partial", "C11_deep_encode_refuted", "C11_opt",
     "C11_union_encode_partial", "C11_union_encode_refuted", "C11_literal_full", "C11_literal_encode_full",
     "C11_literal_returns_listed", "C11_literal_accepts_listed",
 ]
@@ -1704,6 +1886,7 @@ def run(ctx: vlib.Ctx):
     shapes_part(ctx, mod, mem)
     typevar_part(ctx, mod, mem)
     deep_part(ctx, mod, mem)
+    deep_enc_part(ctx, mod, mem)
     k19_part(ctx, mod)
     k21_part(ctx, mod)
 
